@@ -83,3 +83,23 @@ Definition quick_term_or_rec (comp : comp_prog) (sim_lim : N) : recres :=
   | inl _ => RLimit
   | inr r => r
   end.
+
+(** The stream of tape operations (shift, colour written, sweep flag) that
+    run_quick performs in its first [fuel] cycles: used to drive the tape
+    correspondence with the step streams of real programs. *)
+Fixpoint quick_ops (comp : comp_prog) (fuel : nat) (s : qstate) : list (shift * colour * bool) :=
+  match fuel with
+  | O => []
+  | S f =>
+      match cp_get comp (q_state s, scan (q_tape s)) with
+      | None => []
+      | Some (color, sh, next_state) =>
+          let same := q_state s =? next_state in
+          match quick_body comp s with
+          | inl s' => (sh, color, same) :: quick_ops comp f s'
+          | inr _ => []
+          end
+      end
+  end.
+Definition quick_ops_init (comp : comp_prog) (n : N) : list (shift * colour * bool) :=
+  quick_ops comp (N.to_nat n) (mkQ (init_tape 0) 0 0 0 []).
